@@ -354,10 +354,10 @@ class ProgGen:
             if arrs and r.chance(1, 2):
                 a = r.choice(arrs)
                 return [('expr', ('asg', ('idx', v(a), num('0')), self.e_any(sc, 1))) if False else
-                        ('if', b('>', nat('len', v(a)), num('0')), ('expr', ('asg', ('idx', v(a), num('0')), self.e_any(sc, 1))), None)]
+                        ('if', b('>', nat('len', v(a)), num('0')), ('expr', ('asg', ('idx', v(a), num('0')), self.e_any(sc, 1, r.choice(['num', 'str', 'bool'])))), None)]
             if objs:
                 o = r.choice(objs)
-                return [('expr', ('asg', ('prop', v(o), r.choice(KEYS)), self.e_any(sc, 1)))]
+                return [('expr', ('asg', ('prop', v(o), r.choice(KEYS)), self.e_any(sc, 1, r.choice(['num', 'str', 'bool']))))]
             return [pr(self.e_any(sc, 2))]
         if k == 7:
             if self.loop_depth > 0 and r.chance(1, 3):
